@@ -37,6 +37,7 @@
 import MajoranaVerif.Model.Msi
 import MajoranaVerif.Proofs.Msi
 import MajoranaVerif.Proofs.MsiSnapshot
+import MajoranaVerif.Proofs.L3
 open Model.Msi Proofs.Msi
 
 namespace Props.C06
@@ -198,5 +199,191 @@ theorem flush_read_of_modified_negative_counter :
     ((step readOfModified (.flush 0)).sem 7).write = 1 ∧
     (step readOfModified (.flush 0)).panic = true ∧
     violated ((step readOfModified (.flush 0)).snapshot [7]) = ["counters_nonneg"] := by decide
+
+/-! ### the next level of MVP-8: memory + shared L3 + dirty flags (work package L3)
+
+`Model/L3.lean` models proc/mvp8-0's L3 layer operation by operation (L1 fill: L3 hit / miss → fetch the 128-byte line,
+push, eviction of the extra line; write-back of a Modified L1 line into the L3 line — flagging it in `l3Write` under its
+128-ALIGNED address — or straight to memory; L3 eviction: `l3WriteBack` when flagged, else `l3Evict`; end-of-run
+`l3WriteBack()`), on `Model/LineCache.lean`, constants from the regenerated `Gen.Consts.mvp8_0`.  `Proofs/L3.lean`:
+
+* the flat next-level view `nl a` = byte of the L3 line covering `a`, else the memory byte (`Proofs.Mmu.view`;
+  `Proofs.L3.NL s flat` = "the view of `s` is `flat`", `Proofs.L3.nlOf s` = the view as a list);
+* the invariant `Proofs.L3.Inv`: lines are full aligned distinct blocks; every resident line NOT flagged dirty equals
+  memory on its range (the harness's auxiliary observation `l3stale`, negated); every flag sits on the base of a resident
+  line.  `Model.L3.cleanB` is its decidable snapshot form — evaluated on the real snapshots of the C06 streams.
+
+The operations are the atomic steps of the Go code run back to back; `l3_fetch_push_race` / `l3_evict_decision_race`
+show what the model says about the two windows the Go code leaves open between them. -/
+
+/-- the geometry of proc/mvp8-0 as the proofs need it (128-byte L3 lines, 64-byte L1 lines; re-opened when the
+regenerated constants change) -/
+theorem l3_consts : Proofs.L3.CfgOk Model.L3.mvp8Config 128 64 := Proofs.L3.mvp8Config_ok
+
+/-- the initial state (empty L3, no flag) satisfies the invariant, and its next-level view is the memory -/
+theorem l3_init (mem : List Byte) (s0 : Model.L3.State) (h : Model.L3.new Model.L3.mvp8Config mem = .ok s0) :
+    Proofs.L3.Inv 128 s0 ∧ Proofs.L3.NL s0 mem :=
+  Proofs.L3.init_ok l3_consts mem s0 h
+
+/-- **every operation preserves `Clean`** (and the structural part of the invariant), whatever the state, and moves
+the next-level view exactly as `Model.L3.flatStep` says: a fill, an L3 eviction and the final write-back do not change
+it; a write-back of an L1 line changes exactly the written bytes -/
+theorem l3_step_preserves (s s' : Model.L3.State) (op : Model.L3.Op) (flat : List Byte) (hi : Proofs.L3.Inv 128 s)
+    (hnl : Proofs.L3.NL s flat) (hop : Model.L3.okOp Model.L3.mvp8Config op = true)
+    (h : Model.L3.step Model.L3.mvp8Config s op = .ok s') :
+    Proofs.L3.Inv 128 s' ∧ Proofs.L3.NL s' (Model.L3.flatStep flat op) :=
+  let r := Proofs.L3.step_ok l3_consts hi op hop h hnl
+  ⟨r.1, r.2.1⟩
+
+/-- **a fill never changes what the next level holds** — whether it hits the L3, or fetches the line from memory, pushes
+it and evicts (writes back, if dirty) the extra line -/
+theorem l3_fill_keeps_next_level (s s' : Model.L3.State) (a0 : Word) (as : List Word) (r : Int × List Byte) (flat : List Byte)
+    (hi : Proofs.L3.Inv 128 s) (hnl : Proofs.L3.NL s flat) (h0 : 0 ≤ a0.toInt)
+    (hend : Proofs.Mmu.base 128 a0.toInt + 128 < 2 ^ 31)
+    (h : Model.L3.fill Model.L3.mvp8Config s (a0 :: as) = .ok (r, s')) :
+    Proofs.L3.Inv 128 s' ∧ Proofs.L3.NL s' flat :=
+  let x := Proofs.L3.fill_ok l3_consts.l3 l3_consts.Lpos hi a0 as h0 hend h
+  ⟨x.1, x.2.1 flat hnl⟩
+
+/-- **a Shared line stays byte-identical to the next level across L3 evictions**: evicting an L3 line — written back
+when its flag (under the line's own 128-aligned address) is set, dropped otherwise — does not change the view -/
+theorem l3_evict_keeps_next_level (s s' : Model.L3.State) (lo : Int) (flat : List Byte) (hi : Proofs.L3.Inv 128 s)
+    (hnl : Proofs.L3.NL s flat) (h0 : 0 ≤ lo) (hal : lo % 128 = 0) (h : Model.L3.evictExtra s lo = .ok s') :
+    Proofs.L3.Inv 128 s' ∧ Proofs.L3.NL s' flat :=
+  let x := Proofs.L3.evict_ok l3_consts.Lpos hi lo h0 hal h
+  ⟨x.1, x.2.1 flat hnl⟩
+
+/-- **an L1 write-back changes the next level exactly on the written 64 bytes**: the new view is the old one written at
+the same address (`writeToMemory` on the flat list), whether the bytes go into the L3 line or to memory -/
+theorem l3_writeback_changes_64 (s s' : Model.L3.State) (a : Word) (d : List Byte) (flat flat' : List Byte)
+    (hi : Proofs.L3.Inv 128 s) (hnl : Proofs.L3.NL s flat) (h0 : 0 ≤ a.toInt) (hal : a.toInt % 64 = 0) (hd : d.length = 64)
+    (hf : Model.Mmu.writeToMemory flat a.toInt d = .ok flat')
+    (h : Model.L3.l1WriteBack Model.L3.mvp8Config s a d = .ok s') :
+    Proofs.L3.Inv 128 s' ∧ Proofs.L3.NL s' flat' :=
+  let x := Proofs.L3.wb_ok l3_consts.l3 l3_consts.Lpos l3_consts.L1pos l3_consts.div hi a d h0 hal hd h
+  ⟨x.1, x.2.1 flat flat' hnl hf⟩
+
+/-- **after the final write-back memory = `nl`** (and `l3WriteBack()` does not panic) -/
+theorem l3_final_memory_is_next_level (s : Model.L3.State) (flat : List Byte) (hi : Proofs.L3.Inv 128 s)
+    (hnl : Proofs.L3.NL s flat) :
+    ∃ s', Model.L3.finalWriteBack s = .ok s' ∧ s'.mem = flat ∧ Proofs.L3.Inv 128 s' ∧ Proofs.L3.NL s' flat :=
+  Proofs.L3.final_ok hi hnl
+
+/-- **all histories**: from the initial state, along every history of well-formed operations that does not panic, the
+invariant holds, the next-level view is the initial memory with the write-backs applied in order, and the monitor's
+decidable predicate `cleanB` is true -/
+theorem l3_all_histories (mem : List Byte) (s0 s : Model.L3.State) (ops : List Model.L3.Op)
+    (h0 : Model.L3.new Model.L3.mvp8Config mem = .ok s0)
+    (hops : ∀ op ∈ ops, Model.L3.okOp Model.L3.mvp8Config op = true)
+    (h : Model.L3.run Model.L3.mvp8Config s0 ops = .ok s) :
+    Proofs.L3.Inv 128 s ∧ Proofs.L3.NL s (ops.foldl Model.L3.flatStep mem) ∧ Model.L3.cleanB Model.L3.mvp8Config s = true := by
+  obtain ⟨hi0, hnl0⟩ := l3_init mem s0 h0
+  obtain ⟨hi, hnl⟩ := Proofs.L3.run_ok l3_consts ops s0 s mem hi0 hnl0 hops h
+  exact ⟨hi, hnl, Proofs.L3.cleanB_of_inv l3_consts.l3 hi⟩
+
+/-- the view is determined by the state: `NL s flat` pins `flat` down (it is `nlOf s`) -/
+theorem l3_next_level_unique (s : Model.L3.State) (hi : Proofs.L3.Inv 128 s) (flat : List Byte) (hnl : Proofs.L3.NL s flat) :
+    flat = Proofs.L3.nlOf s :=
+  Proofs.L3.NL.unique hnl (Proofs.L3.nl_coh l3_consts.Lpos hi.lwf)
+
+/-! #### witnesses (all by kernel evaluation of the model) -/
+
+/-- 256 bytes of zeros; read address 0 (the L3 line [0,128) is fetched and is clean) -/
+def l3Demo : GoInt.M Model.L3.State := show GoInt.M Model.L3.State from do
+  let s0 ← Model.L3.new Model.L3.mvp8Config (List.replicate 256 0#8)
+  let (_, s) ← Model.L3.fill Model.L3.mvp8Config s0 [0#32]
+  pure s
+
+/-- what a state shows at byte 64: the next-level view, the memory byte, and the monitor's verdict -/
+def l3Look (s : Model.L3.State) : Option Byte × Option Byte × Bool :=
+  (Proofs.Mmu.view s.l3.lines s.mem 64, s.mem[64]?, Model.L3.cleanB Model.L3.mvp8Config s)
+
+/-- Non-vacuity of the positive theorems: write the L1 line [64,128) back (into the resident L3 line, flagged under
+address 0), then evict L3 line 0: the line is written back, the view still shows the written byte, `cleanB` holds -/
+theorem l3_demo_good :
+    (do let s ← l3Demo
+        let s1 ← Model.L3.l1WriteBack Model.L3.mvp8Config s 64#32 (List.replicate 64 1#8)
+        let s2 ← Model.L3.evictExtra s1 0
+        pure (s1.dirty, l3Look s1, l3Look s2)).toOption = some ([0], (some 1#8, some 0#8, true), (some 1#8, some 1#8, true)) := by
+  decide +kernel
+
+/-- **the seeded mutation** (flag recorded under the un-aligned 64-byte L1 address): the same history LOSES the write —
+the eviction of line 0 finds no flag under 0, drops the line, and the next level shows the old byte -/
+theorem l3_bad_flag_loses_write :
+    (do let s ← l3Demo
+        let s1 ← Model.L3.l1WriteBackBad s 64#32 (List.replicate 64 1#8)
+        let s2 ← Model.L3.evictExtra s1 0
+        pure (s1.dirty, l3Look s1, l3Look s2)).toOption = some ([64], (some 1#8, some 0#8, false), (some 0#8, some 0#8, false)) := by
+  decide +kernel
+
+/-- hence, for the mutant, the eviction theorem is FALSE (and the monitor's `cleanB` already fails before the eviction:
+a flag on a non-128-aligned address) -/
+theorem l3_not_evict_keeps_next_level_bad :
+    ¬ (∀ (s s1 s2 : Model.L3.State) (a : Word) (d : List Byte) (lo : Int), Proofs.L3.Inv 128 s →
+        0 ≤ a.toInt → a.toInt % 64 = 0 → d.length = 64 → 0 ≤ lo → lo % 128 = 0 →
+        Model.L3.l1WriteBackBad s a d = .ok s1 → Model.L3.evictExtra s1 lo = .ok s2 →
+        Proofs.Mmu.view s2.l3.lines s2.mem 64 = Proofs.Mmu.view s1.l3.lines s1.mem 64) := by
+  intro hall
+  have hw := l3_bad_flag_loses_write
+  cases hs : l3Demo with
+  | error f => rw [hs] at hw; cases hw
+  | ok s =>
+    have hinv : Proofs.L3.Inv 128 s := by
+      unfold l3Demo at hs
+      cases h0 : Model.L3.new Model.L3.mvp8Config (List.replicate 256 0#8) with
+      | error f => rw [h0] at hs; cases hs
+      | ok s0 =>
+        rw [h0] at hs
+        simp only [bind, Except.bind] at hs
+        cases hf : Model.L3.fill Model.L3.mvp8Config s0 [0#32] with
+        | error f => rw [hf] at hs; cases hs
+        | ok p =>
+          rw [hf] at hs
+          simp only [pure, Except.pure] at hs
+          injection hs with hs
+          subst hs
+          exact (l3_fill_keeps_next_level s0 p.2 0#32 [] p.1 _ (l3_init _ s0 h0).1 (l3_init _ s0 h0).2 (by decide) (by decide) hf).1
+    rw [hs] at hw
+    simp only [bind, Except.bind] at hw
+    cases h1 : Model.L3.l1WriteBackBad s 64#32 (List.replicate 64 1#8) with
+    | error f => rw [h1] at hw; cases hw
+    | ok s1 =>
+      rw [h1] at hw
+      simp only at hw
+      cases h2 : Model.L3.evictExtra s1 0 with
+      | error f => rw [h2] at hw; cases hw
+      | ok s2 =>
+        rw [h2] at hw
+        simp only [pure, Except.pure] at hw
+        injection hw with hw
+        simp only [Prod.mk.injEq, l3Look] at hw
+        have := hall s s1 s2 64#32 (List.replicate 64 1#8) 0 hinv (by decide) (by decide) (by simp) (by decide) (by decide) h1 h2
+        rw [hw.2.1.1, hw.2.2.1] at this
+        cases this
+
+/-- **window 1** (`fetchCacheLine` … `pushLineToL3`, ≈ 360 cycles in Go): if a Modified L1 line of the same L3 block is
+written back to memory between the fetch and the push, the pushed line is stale — resident, not flagged, different from
+memory (`cleanB` false), and the FILL has changed the next-level view (byte 64: 1 → 0).  CONFIRMED on the real code
+(rig schedule, .work/reports/C06-defect-3.md): the store is lost. -/
+theorem l3_fetch_push_race :
+    (do let s0 ← Model.L3.new Model.L3.mvp8Config (List.replicate 256 0#8)
+        let (lo, line) ← Model.L3.fetchLine Model.L3.mvp8Config s0.mem 0#32
+        let s1 ← Model.L3.l1WriteBack Model.L3.mvp8Config s0 64#32 (List.replicate 64 1#8)
+        let (_, s2) ← Model.L3.pushLineToL3 Model.L3.mvp8Config s1 lo line
+        pure (l3Look s1, l3Look s2)).toOption = some ((some 1#8, some 1#8, true), (some 0#8, some 1#8, false)) := by
+  decide +kernel
+
+/-- **window 2** (the request `l3Evict` / `l3WriteBack` is chosen at push time, the snoop runs later): if an L1 line is
+written back INTO the victim between decision and execution, the plain `l3Evict` drops the dirty line (byte 64: 1 → 0).
+Not reached on the real code: the write-back polls `isAddressInL3` (an LRU refresh) on each of its last 50 cycles, so its
+line is never the victim (.work/reports/C06-defect-3.md, last section). -/
+theorem l3_evict_decision_race :
+    (do let s ← l3Demo
+        let k := Model.L3.evictDecision s 0
+        let s1 ← Model.L3.l1WriteBack Model.L3.mvp8Config s 64#32 (List.replicate 64 1#8)
+        let s2 ← Model.L3.execEvict s1 k 0
+        pure (k, l3Look s1, l3Look s2)).toOption =
+      some (Model.L3.EvictKind.evict, (some 1#8, some 0#8, true), (some 0#8, some 0#8, true)) := by
+  decide +kernel
 
 end Props.C06
